@@ -1,6 +1,6 @@
 """C06 - canonical diagram store."""
 from mirlib import facts
-from rules import kernel, shared
+from rules import deps, kernel, shared
 
 EXPLANATION = """
 Decided (the induction steps of 'the node table is a reduced, duplicate-free, ordered DAG after every operation'):
@@ -9,7 +9,9 @@ parameters; the returned handle is the index the node is stored at and is what t
 reduced and hit paths have no effects), S.W-store (who may write Bdd.nodes / Bdd.cache and with which operation, in
 all three crates), C06.W-ctor (frozen table of Bdd::node call sites, each with the reason it keeps children below the
 new node), C06.R-recv (recv appends verbatim and registers under the handle = index), C06.A-serde (nodes and cache
-are serialised; only memo/bookkeeping fields are skipped)."""
+are serialised; only memo/bookkeeping fields are skipped), and - because 'same handle iff same function' fails as soon as an operation
+returns the handle of another function - the kernel-build and kernel-restrict suites of rules/deps.py (C07.T-conn, C07.T-ite0,
+C07.R-ite, C07.R-restrict, S.F-memo for ite_cache and restrict_cache, S.R-new)."""
 NOT_DECIDED = "'same handle iff same function' for all operation sequences follows from these steps plus C07 on paper; biodivine's table is trusted to be ordered."
 TECHNIQUE = "static analysis: path-sensitive MIR summaries (guards/effects of Bdd::node, recv), who-may-write and who-may-call census over resolved MIR places/callees"
 
@@ -40,10 +42,8 @@ def check(ctx):
         ctx.cfg = cfg.name
         lib = ctx.load(cfg)
         frontend = "frontend" in lib.features
-        kernel.R_node(ctx, lib, frontend)
-        kernel.R_new(ctx, lib)
-        kernel.W_store(ctx, {"lib": lib})
-        kernel.W_ctor(ctx, {"lib": lib})
+        deps.kernel_build(ctx, lib)      # S.R-node, S.R-new, S.W-store, C06.W-ctor + connectives / ITE / ite memo
+        deps.kernel_restrict(ctx, lib)   # restrict creates nodes and is memoised
         if frontend:
             kernel.R_recv(ctx, lib, "C06.R-recv", "recv appends the received node verbatim and registers it in cache under Term(len before push)")
         A_serde(ctx, lib)
